@@ -13,6 +13,7 @@ CONSTANTS
     LandmarkOwnStream = TRUE
     KeepLastDup = TRUE
     ReservedByFullName = TRUE
+    RefuseUnknownType = TRUE
 SPECIFICATION MonSpec
 INVARIANTS TocAddressesRightBytes ChunksTileFile OffsetsUniquePerStreamStart EntriesPreserved DiffIDIsHashOfDecompressed TocDigestIsHashOfTocJSON LosslessIdentity
 CHECK_DEADLOCK FALSE
